@@ -23,13 +23,13 @@ enum OpKind {
   S_ALLOC, S_INSERT, S_FIND, S_DELETE, S_BULK, S_BULKDEL, S_CLEAR, S_COPY, S_COPYROWS, S_COPYCOLS, S_COPYROWS_OPT, S_COPYCOLS_OPT,
   S_COPY_FILLED, S_TO_DENSE, S_FROM_DENSE, S_QUERY, S_FREE,
   D_ALLOC, D_SET, D_GET, D_FLIP, D_CLEAR, D_COPY, D_COPYROWS, D_COPYCOLS, D_XOR, D_FILL, D_WEIGHTS, D_FREE,
-  X_SOLVE, OP_KINDS
+  X_SOLVE, S_DELRUN, OP_KINDS
 };
 static const char* const kind_names[] = {
   "s_alloc", "s_insert", "s_find", "s_delete", "s_bulk", "s_bulkdel", "s_clear", "s_copy", "s_copyrows", "s_copycols", "s_copyrows_opt",
   "s_copycols_opt", "s_copy_filled", "s_to_dense", "s_from_dense", "s_query", "s_free",
   "d_alloc", "d_set", "d_get", "d_flip", "d_clear", "d_copy", "d_copyrows", "d_copycols", "d_xor", "d_fill", "d_weights", "d_free",
-  "x_solve"};
+  "x_solve", "s_delrun"};
 
 struct MOp { int kind = 0; uint32_t a = 0, b = 0, c = 0, d = 0; uint64_t seed = 0; };
 typedef std::vector<MOp> Seq;
@@ -62,7 +62,7 @@ struct Interp {
   static const int NS = 4;
   Verdict v;
   // sparse
-  struct SP { void* m = nullptr; uint32_t rows = 0, cols = 0; std::set<std::pair<uint32_t, uint32_t>> model; bool deleted_since = false, cleared_since = false; };
+  struct SP { void* m = nullptr; uint32_t rows = 0, cols = 0; std::set<std::pair<uint32_t, uint32_t>> model; bool deleted_since = false, cleared_since = false; std::vector<std::pair<uint32_t, uint32_t>> last_deleted; };
   SP sp[NS];
   // dense
   struct DN { void* d = nullptr; uint32_t rows = 0, cols = 0; std::vector<std::vector<uint8_t>> model; };
@@ -261,6 +261,7 @@ struct Interp {
           s.model.insert({r, c});
         } else if (op.kind == S_FIND) {
           if (op.d % 2 == 0 && !s.model.empty()) { auto it = s.model.begin(); std::advance(it, (long)(op.d / 2 % s.model.size())); r = it->first; c = it->second; }
+          else if (op.d % 8 == 1 && !s.last_deleted.empty()) { auto& ld = s.last_deleted[op.d / 8 % s.last_deleted.size()]; r = ld.first; c = ld.second; }    // a recently deleted position
           if ((shp_sp_find(s.m, r, c) != 0) != (s.model.count({r, c}) != 0)) fail("SPARSE/find_disagrees", "find(" + std::to_string(r) + "," + std::to_string(c) + ") disagrees with membership");
         } else {
           if (op.d % 4 != 3 && !s.model.empty()) { auto it = s.model.begin(); std::advance(it, (long)(op.d / 4 % s.model.size())); r = it->first; c = it->second; }
@@ -374,10 +375,39 @@ struct Interp {
         }
         for (uint32_t c = 0; c < s.cols && !v.failed; c++) if ((shp_sp_empty_col(s.m, c) != 0) != (cw[c] == 0)) fail("SPARSE/empty_col_wrong", "empty_col(" + std::to_string(c) + ")");
       } break;
+      case S_DELRUN: {
+        // delete a run of neighbouring entries of one row or column through traversal handles (no lookup), optionally right
+        // after a successful find of one of them; the positions are remembered for later finds
+        SP& s = sp[i]; if (!s.m || s.model.empty()) return;
+        at::at_tag = 100 + i;
+        auto it = s.model.begin(); std::advance(it, (long)(op.b % s.model.size()));
+        uint32_t r = it->first, c = it->second;
+        bool by_col = (op.d & 1) != 0;
+        uint32_t line = by_col ? c : r;
+        std::vector<uint32_t> others;   // the other coordinates on that line, in traversal order
+        for (auto& e : s.model) if ((by_col ? e.second : e.first) == line) others.push_back(by_col ? e.first : e.second);
+        std::sort(others.begin(), others.end());
+        uint32_t pos = 0; while (pos < others.size() && others[pos] != (by_col ? r : c)) pos++;
+        uint32_t before = std::min<uint32_t>(pos, (op.d >> 1) % 3), count = 1 + (op.d >> 3) % 4 + before;
+        if (op.d & 64) { if (!shp_sp_find(s.m, r, c)) { fail("SPARSE/find_disagrees", "find misses an entry of the model"); return; } }   // the lookup that precedes the deletions
+        std::vector<int32_t> out(count + 1);
+        long n = shp_sp_delete_run(s.m, by_col ? 1 : 0, line, pos - before, count, out.data(), (long)count);
+        s.last_deleted.clear();
+        for (long q = 0; q < n; q++) {
+          std::pair<uint32_t, uint32_t> e = by_col ? std::make_pair((uint32_t)out[q], line) : std::make_pair(line, (uint32_t)out[q]);
+          if (!s.model.count(e)) { fail("SPARSE/row_traversal_differs", "a traversal handed out an entry that is not in the model"); return; }
+          s.model.erase(e); s.last_deleted.push_back(e);
+        }
+        uint32_t expect_n = std::min<uint32_t>(count, (uint32_t)others.size() - (pos - before));
+        if ((uint32_t)n != expect_n) { fail("SPARSE/row_traversal_count", "a traversal of one line saw " + std::to_string(n) + " entries where the model has " + std::to_string(expect_n)); return; }
+        s.deleted_since = true;
+        if (op.d & 128) for (auto& e : s.last_deleted) if (shp_sp_find(s.m, e.first, e.second)) { fail("SPARSE/find_disagrees", "find(" + std::to_string(e.first) + "," + std::to_string(e.second) + ") returns an entry that was deleted"); return; }
+      } break;
       case S_FREE: sp_free(i); break;
 
       case D_ALLOC: {
         uint32_t r = 1 + op.b % 70, c = dense_cols_choice(op.c);
+        if (op.d % 64 == 6) { r = 1 + op.b % 4; c = 2000 + op.c % 3000; }   // wide: rows of thousands of bits (weights over many words)
         if (op.d % 64 == 5) {   // tall: row indices beyond 16 bits
           static const uint32_t tr[4] = {65535, 65536, 65537, 70001};
           r = tr[(op.d / 64) % 4]; c = 1 + op.c % 40; v.features |= FT_TALLDENSE;
@@ -394,7 +424,12 @@ struct Interp {
         else { uint32_t b = shp_dn_flip(d.d, r, c); d.model[r][c] ^= 1; if (b != d.model[r][c]) fail("DENSE/flip_return_wrong", "flip returned " + std::to_string(b)); }
       } break;
       case D_CLEAR: { DN& d = dn[i]; if (!d.d) return; shp_dn_clear(d.d); for (auto& row : d.model) std::fill(row.begin(), row.end(), 0); } break;
-      case D_FILL: { DN& d = dn[i]; if (!d.d) return; uint32_t dens = 1 + op.b % 5; for (uint32_t r = 0; r < d.rows; r++) for (uint32_t c = 0; c < d.cols; c++) { uint8_t b = splitmix(x) % 6 < dens; shp_dn_set(d.d, r, c, b); d.model[r][c] = b; } } break;
+      case D_FILL: { DN& d = dn[i]; if (!d.d) return; uint32_t dens = 1 + op.b % 5;
+        if (op.d % 4 == 3) {   // all ones (optionally from column 32 / 64 on)
+          uint32_t from = (op.d / 4 % 3) * 32; if (from >= d.cols) from = 0;
+          for (uint32_t r = 0; r < d.rows; r++) for (uint32_t c = 0; c < d.cols; c++) { uint8_t b = c >= from; shp_dn_set(d.d, r, c, b); d.model[r][c] = b; }
+          break;
+        } for (uint32_t r = 0; r < d.rows; r++) for (uint32_t c = 0; c < d.cols; c++) { uint8_t b = splitmix(x) % 6 < dens; shp_dn_set(d.d, r, c, b); d.model[r][c] = b; } } break;
       case D_COPY: case D_COPYROWS: case D_COPYCOLS: {
         int j = (int)(op.b % NS); if (i == j) j = (j + 1) % NS;
         DN& s = dn[i]; if (!s.d) return;
@@ -435,14 +470,22 @@ struct Interp {
     }
   }
 
+  int vmode = 0; uint64_t nops = 0;
   Verdict run(const Seq& s) {
+    if (!s.empty() && s[0].kind == S_ALLOC) { uint64_t q = s[0].seed % 4; vmode = q == 0 ? 0 : q == 1 ? 1 : 2; }
     for (const MOp& op : s) {
       exec(op);
       if (v.failed) break;
-      if (op.kind <= S_FREE) for (int i = 0; i < NS; i++) sp_validate(i, kind_names[op.kind]);
+      // observing changes what is observed (a lookup may move a cache): the full validation runs after every operation, after
+      // every seventh, or only at the end of the case, as the first operation of the case says
+      nops++;
+      bool sparse_op = op.kind <= S_FREE || op.kind == S_DELRUN;
+      if (sparse_op && vmode != 0 && !(vmode == 1 && nops % 7 == 0)) continue;
+      if (sparse_op) for (int i = 0; i < NS; i++) sp_validate(i, kind_names[op.kind]);
       else if (op.kind <= D_FREE) for (int i = 0; i < NS; i++) dn_validate(i, kind_names[op.kind]);
       if (v.failed) break;
     }
+    if (!v.failed && vmode != 0) for (int i = 0; i < NS; i++) sp_validate(i, "the last operation of the case");
     for (int i = 0; i < NS; i++) { sp_free(i); dn_free(i); }
     check_kept("by the time the case ended");
     for (auto& kq : kept) free(kq.p);
@@ -463,9 +506,9 @@ static Seq generate(const std::string& prop, Chooser& ch, bool thorough) {
   }
   uint32_t n = ch.range(1, thorough ? 120 : 60);
   static const int sw[] = {S_ALLOC, S_INSERT, S_INSERT, S_INSERT, S_FIND, S_DELETE, S_DELETE, S_BULK, S_BULKDEL, S_CLEAR, S_COPY, S_COPYROWS, S_COPYCOLS, S_COPYROWS_OPT,
-                           S_COPYCOLS_OPT, S_COPY_FILLED, S_TO_DENSE, S_FROM_DENSE, S_QUERY, S_FREE, S_INSERT, S_BULK};
+                           S_COPYCOLS_OPT, S_COPY_FILLED, S_TO_DENSE, S_FROM_DENSE, S_QUERY, S_FREE, S_INSERT, S_BULK, S_DELRUN, S_DELRUN, S_FIND, S_FIND};
   static const int dw[] = {D_ALLOC, D_SET, D_SET, D_FLIP, D_GET, D_CLEAR, D_COPY, D_COPYROWS, D_COPYCOLS, D_XOR, D_XOR, D_FILL, D_WEIGHTS, D_FREE, D_FLIP, D_FILL};
-  { MOp op; op.kind = sparse ? S_ALLOC : D_ALLOC; op.a = 0; op.b = ch.next(); op.c = ch.next(); op.d = ch.next(); s.push_back(op); }
+  { MOp op; op.kind = sparse ? S_ALLOC : D_ALLOC; op.a = 0; op.b = ch.next(); op.c = ch.next(); op.d = ch.next(); op.seed = ch.next(); s.push_back(op); }
   for (uint32_t i = 0; i < n; i++) {
     MOp op;
     op.kind = sparse ? sw[ch.next() % (sizeof sw / sizeof sw[0])] : dw[ch.next() % (sizeof dw / sizeof dw[0])];
@@ -543,6 +586,34 @@ static void popcounts(bool& failed, std::string& sig, std::string& msg, std::str
     st.evaluations++;
     uint32_t got = shp_hweight_array(a.data(), (int32_t)bits);
     if (got != want) { failed = true; sig = "C18/POPCOUNT/of_hweight_array"; msg = "of_hweight_array over " + std::to_string(bits) + " bits (padding zero) = " + std::to_string(got) + ", exact " + std::to_string(want); rp = "popcount of_hweight_array 0\n"; }
+  }
+  // long arrays with structured contents (what a blocked or vectorised count accumulates before folding depends on both):
+  // every multiple of 64 bits up to 8192, and 2^j (+-1, +-33) up to 2^17; all-ones, one saturated byte lane per 64-bit word,
+  // alternating bits, density 7/8, first half ones
+  {
+    std::vector<uint32_t> lens;
+    for (uint32_t b = 64; b <= 8192; b += 64) lens.push_back(b);
+    for (uint32_t j = 13; j <= 17; j++) for (int d : {-33, -1, 0, 1, 33}) lens.push_back((1u << j) + d);
+    for (uint32_t bits : lens) for (int pat = 0; pat < 12 && !failed; pat++) {
+      uint32_t words = (bits + 31) / 32;
+      std::vector<uint32_t> a(words + (words & 1), 0);
+      uint32_t want = 0;
+      for (uint32_t i = 0; i < bits; i++) {
+        bool one;
+        uint32_t byte_in_word64 = (i / 8) % 8;
+        switch (pat) {
+          case 0: one = true; break;
+          case 9: one = (i & 1) != 0; break;
+          case 10: one = splitmix(x) % 8 != 0; break;
+          case 11: one = i < bits / 2; break;
+          default: one = byte_in_word64 == (uint32_t)(pat - 1) || (splitmix(x) % 16 == 0);   // pat 1..8: lane pat-1 saturated
+        }
+        if (one) { a[i / 32] |= 1u << (i % 32); want++; }
+      }
+      st.evaluations++;
+      uint32_t got = shp_hweight_array(a.data(), (int32_t)bits);
+      if (got != want) { failed = true; sig = "C18/POPCOUNT/of_hweight_array"; msg = "of_hweight_array over " + std::to_string(bits) + " bits (pattern " + std::to_string(pat) + ", padding zero) = " + std::to_string(got) + ", exact " + std::to_string(want); rp = "popcount of_hweight_array 1\n"; }
+    }
   }
 }
 
